@@ -22,7 +22,7 @@ MAPS_NOTE = ("trusted: Coq kernel, extraction (ExtrOcamlBasic), OCaml/Rust/pytho
              "(lib.rs, btree_map.rs, im_rc.rs) into Model/MapOps.v (checked by correspondence), OrdMap taken as a sorted map, "
              "map_with_old feeds the closure its previous output and re-runs it when the input changed (C01/C06)")
 CLAIMS["C15"] = dict(engine="coq-maps", note=MAPS_NOTE, text="Coq theorems (closed under the global context) over the step functions transcribed from the crate: for every user function and all key-sorted maps of any size, a recompute of incr_filter_mapi (hence incr_map/incr_mapi/incr_filter_map), incr_unordered_fold (invertible add/remove, optional update agreeing with remove-then-add, optional revert-to-init), incr_partition_mapi and incr_merge from an in-sync old pair yields the plain definition on the new input, and therefore so does every output over ANY sequence of inputs (which is why unobserved periods do not matter); tied to the code by running the extracted steps and the real operators (BTreeMap, Rc<BTreeMap>, OrdMap) on the same edit sequences with observe/unobserve periods, plus an oracle computing the plain definitions.")
-CLAIMS["C17"] = dict(engine="coq-maps", note=MAPS_NOTE, text="Coq theorems (closed under the global context): the user function of incr_(filter_)map(i) is invoked exactly on the added/changed keys, once each in key order, never on an unchanged key (except (re)initialisation, which visits every key once); the add/remove/update functions of incr_unordered_fold only on keys whose presence or value differs; the call log is part of the step functions' result and is compared with the instrumented real operators on generated edit sequences, plus an oracle on the crate's (round, key, role) log. The per-key graph operators (incr_mapi_ etc.) are not covered yet (see C16).")
+CLAIMS["C17"] = dict(engine="coq-maps", note=MAPS_NOTE, text="Coq theorems (closed under the global context): the user function of incr_(filter_)map(i) is invoked exactly on the added/changed keys, once each in key order, never on an unchanged key (except (re)initialisation, which visits every key once); the add/remove/update functions of incr_unordered_fold only on keys whose presence or value differs; the call log is part of the step functions' result and is compared with the instrumented real operators on generated edit sequences, plus an oracle on the crate's (round, key, role) log. For the per-key graph operators (incr_mapi_ etc.) the work clause — the user's per-key function is built once per added key, never again for a key that stays — is evaluated on the crate's invocation log by the oracle of the C16 check.")
 ENGINE = {
  "C01": "reads of in-use observers after every completed stabilise, model vs crate, plus a from-scratch reference evaluator over the history's expression trees",
  "C02": "per-stabilise invocation multisets (inv/foldcall/bindrun/rec) in both build profiles, plus the oracle: at most one call per node and arguments equal to the inputs' end-of-stabilise values read from the state dump",
@@ -38,6 +38,7 @@ ENGINE = {
  "C13": "fault enumeration: a panic injected at every individual user-function invocation (node, fold, bind, cutoff functions and update handlers) of every stabilise of every generated history, followed by reads, a second stabilise and dropping everything; whole traces compared, plus the oracle (reads refused or fully propagated, second stabilise refuses, drops do not panic or abort)",
  "C19": "limit / reconfiguration / cycle / nested-stabilise / cross-state histories in both build profiles with the full state compared after every op, plus the oracle (HeightLimit exactly when the graph height exceeds the limit in force, set_max_height_allowed exact, cycles/nesting/foreign nodes panic with their diagnostic, handles droppable afterwards)",
  "C14": "reads, change-callback / recompute / observability-callback logs and the full state dump (children vectors, index cells, invalid-children counters) on histories where the dependencies of an expert node are added and removed from the functions of its own children (join / bind / dynamic-sum idiom with shared, duplicate and invalidatable children), with static dependencies with and without callbacks, make_stale, invalidate, unobserve / re-observe and dependencies added from top level after the node ran, in both build profiles; oracle: no panic, observed values equal the reference sum (for the callback-fed flavour this is the callback-completeness clause), at most one recompute per stabilise and exactly one after make_stale, invalid only if a kept dependency is invalid or invalidate was called, invalidate reaches the dependants",
+ "C16": "reads of the operator output, the per-key function's invocation log, node function calls, invalidations and the full state dump (per-key expert nodes, their edges and index cells, the result node's children) for incr_mapi_ and incr_mapi_cutoff on BTreeMap and OrdMap inputs, with a per-key function that is a pure map, a map2 with an outer variable, a bind on the value, a function ignoring its input, one returning a shared pre-existing node, a chain; random edits of the input map, writes to the other variables, unobserve / re-observe, both build profiles; oracle: no panic, the observed output equals the per-entry computation on the current input. The filter flavours (incr_filter_mapi_, _cutoff) share the generic implementation and differ only in the Option projection of the callback; they are not exercised",
  "C20": "results of every memoised call, the underlying function's invocation log, bind runs, invalidations, reads and the full state dump (scope of every node) on histories that call memoised functions from top level and from (nested) bind closures, drop the returned handles, re-run the binds and stabilise, plus a scripted family where weak_memoize_fn itself is called inside a bind closure; oracle: a key whose node is still allocated returns that node without invoking the function, a freed key invokes it again, nodes created at top level carry the creation scope, observed values stay valid and equal the reference after bind re-runs",
  "C11": "the full engine state (hook dump) after every single op, model vs crate, plus the audit (edges symmetric with matching indices, heights, heap = necessary and stale once each, counters, handler counts) evaluated on the crate's dumps",
 }
@@ -52,6 +53,7 @@ SCOPE = {
  "C12": "Proved about the ownership graph of the model: after a collection nothing unreferenced survives, no live object references a freed one, held objects survive, release does not change reads. The ownership graph itself (which field holds which strong reference) is tied to the crate by comparing Weak::upgrade of every node after every op",
  "C13": "Proved: any failing stabilise leaves the status non-NotStabilising, a further stabilise refuses, the poison is permanent over any operation sequence, reads after a propagation panic are refused. Dropping everything afterwards without panic is decided by the fault enumeration on the crate",
  "C14": "Proved: the children vector and the edges' index cells stay consistent through add_dependency and remove_dependency (duplicates and invalid children included), no other engine function writes them, callback delivery on linking (exactly when the node has run and the child has a value), no unwrap on a child without a value. Not proved: the value clause (node = reference combinator after every stabilise) and callback completeness over whole stabilisations — correspondence + oracle",
+ "C16": "Proved: the difference the model's map_cyclic closure iterates over is exactly the keys whose lookup differs between the previous and the new input, each once (tied to the real symmetric_fold by C18); after a successful pass the remembered previous input is the new input, and nothing else in the engine writes it. Not proved: that the accumulator equals the per-entry computation after every stabilise (this needs the whole propagation invariant) — correspondence + oracle",
  "C19": "Proved: the height limit is exact in set_height (limit in force accepted, limit+1 refused with the diagnostic), new_with_height and set_max_height_allowed give exactly N, reconfiguration below the seen height is refused, nested stabilise panics from closures and from top level, a cycle closed through adjust_heights is reported. Not proved: that adjust_heights computes the true longest-path height (so 'exactly when the graph height exceeds N') — correspondence + oracle",
  "C20": "Proved: a live key returns the same node with the state untouched, a second call shares the first's node, a dead or new key runs the function in the creation scope and restores the caller's scope, every node a memoised call creates belongs to a scope in which weak_memoize_fn was called (top-level functions create top-level nodes, from whatever scope they are called). The liveness notion (weak upgrade) is the model's collection, tied to the crate by the dump comparison",
 }
